@@ -67,12 +67,23 @@ func checkC16(e *Env) {
 			one(k - (1 << 32))
 		}
 		r := rng.New(e.Seed, "C16")
-		for k := 0; k < e.pick(200000, 5000000)/1000; k++ {
+		// log-uniform: several values of every bit length, both signs, plus windows
+		for b := uint(1); b <= 63; b++ {
+			for k := 0; k < e.pick(6, 60); k++ {
+				v := int64(1)<<(b-1) | int64(r.Uint64()&(1<<(b-1)-1))
+				one(v)
+				one(-v)
+			}
+			v := int64(1) << (b - 1)
+			emit(&Item{Op: plan.Op{Fn: "strrange", Lo: v - 40, Hi: v + 40}, Exp: c16exp{lo: v - 40, hi: v + 40}})
+			emit(&Item{Op: plan.Op{Fn: "strrange", Lo: -v - 40, Hi: -v + 40}, Exp: c16exp{lo: -v - 40, hi: -v + 40}})
+		}
+		for k := 0; k < e.pick(2000, 50000); k++ {
 			// random int64 values, individually (1000 per batch would need per-value output; use singles sparsely)
 			one(int64(r.Uint64()))
 		}
 		// dense ranges through digests
-		span := int64(e.pick(70000, 1<<24))
+		span := int64(e.pick(1<<20, 1<<24))
 		const chunk = 1 << 14
 		for lo := -span; lo <= span; lo += chunk {
 			hi := lo + chunk - 1
@@ -170,7 +181,7 @@ func checkC16(e *Env) {
 	e.WriteEvidence("exploration", map[string]any{
 		"evaluations":                 values,
 		"distinct_nontrivial":         dist.Len(),
-		"rule":                        "cases are int values of Language: the ten supported values (complete), every value in [-70000, 70000] (thorough [-2^24, 2^24]) through SHA-256 digests of 16384-value chunks computed in the child and compared with the digest of the expected names (a differing chunk is bisected to a single value), boundary values of every integer width, values congruent to supported ones modulo 2^8/2^16/2^32, and seeded random int64 values and windows; non-trivial = every value (the expected string is fully determined); distinct = single values and chunks whose output was confirmed",
+		"rule":                        "cases are int values of Language: the ten supported values (complete), every value in [-2^20, 2^20] (thorough [-2^24, 2^24]) through SHA-256 digests of 16384-value chunks computed in the child and compared with the digest of the expected names (a differing chunk is bisected to a single value), boundary values of every integer width, values congruent to supported ones modulo 2^8/2^16/2^32, and seeded random int64 values and windows; non-trivial = every value (the expected string is fully determined); distinct = single values and chunks whose output was confirmed",
 		"samples":                     smp.List(),
 		"supported_names_observed":    supported,
 		"supported_subset_exhaustive": true,
